@@ -17,7 +17,7 @@
    transcription with what the real code returned (reported as model drift, never as a violation). *)
 EXTENDS Integers, Sequences, FiniteSets, TLC
 
-CONSTANTS MaxN, T, Sizes, Aligns, MaxAddr, AddrStep
+CONSTANTS MaxN, T, Sizes, Aligns, Eqs, MaxAddr, AddrStep
 VARIABLES R, phase,
           k,        \* next position in the sorted order
           g         \* allocator state [cur, addr, total]
@@ -87,7 +87,7 @@ AllocStep == /\ phase = "run"
 Next == Extend \/ Start \/ AllocStep
 Spec == Init /\ [][Next]_vars
 
-Refines == A!Spec
+Refines == A!SpecR
 InvNoOverlapLive == A!InvNoOverlapLive
 InvAligned == A!InvAligned
 InvTotalOK == A!InvTotalOK
